@@ -168,7 +168,46 @@ def make_selection():
 
 def make_collision():
     def h(sel: int, lazy: bool) -> str:
-        kind = pick(["item/items", "x/xs", "fallback-taken", "no-collision", "inherited"], sel)
+        kind = pick(["item/items", "x/xs", "fallback-taken", "no-collision", "inherited", "two-collections", "inherited-collection"], sel)
+        if kind in ("two-collections", "inherited-collection"):
+            # the singular forms of two collections coincide / the collection is inherited and the scalar is new:
+            # either decoration raises, or both families exist under distinct names and address their own attribute
+            try:
+                if kind == "two-collections":
+                    cls = spec_class(bootstrap=not lazy)(new_class({"__annotations__": {"x": List[int], "x_items": Dict[str, int]}}))
+                else:
+                    par = spec_class(bootstrap=not lazy)(new_class({"__annotations__": {"items": List[int]}, "items": []}))
+                    cls = type("Child", (par,), {})
+                    cls.__annotations__ = {"item": int}
+                    cls.item = 0
+                    cls = spec_class(bootstrap=not lazy)(cls)
+                cls.__spec_class__
+            except (Violation, Skip):
+                raise
+            except RuntimeError:
+                return "RuntimeError"
+            if kind == "two-collections":
+                o = cls(x=[1], x_items={"a": 1})
+                try:
+                    r = o.with_x_item(5)
+                except (Violation, Skip):
+                    raise
+                except Exception as ex:
+                    check(False, "a singular-name collision falls back to <attr>_item or raises rather than shadowing another attribute's helpers", "C16/collision/two-collections/shadowed", lambda: f"with_x_item(5) on the list attribute x: {ex!r}")
+                check(r.x == [1, 5] and r.x_items == {"a": 1}, "a singular-name collision falls back to <attr>_item or raises rather than shadowing another attribute's helpers", "C16/collision/two-collections/shadowed", lambda: f"with_x_item(5) -> {r!r}")
+                check(hasattr(cls, "with_x_items_item"), "... the second collection falls back to <attr>_item", "C16/collision/two-collections/no-fallback", lambda: f"{sorted(n for n in dir(cls) if n.startswith('with_'))}")
+                r2 = o.with_x_items_item("b", 2)
+                check(r2.x_items == {"a": 1, "b": 2} and r2.x == [1], "the fallback element helpers address the second collection", "C16/collision/two-collections/fallback-broken")
+            else:
+                o = cls(items=[2], item=1)
+                r = o.with_item(5)
+                check(r.item == 5 and r.items == [2], "the scalar helpers of the new attribute address it", "C16/collision/inherited-collection/scalar-broken", lambda: f"{r!r}")
+                check(hasattr(cls, "with_items_item"), "a singular-name collision falls back to <attr>_item or raises rather than shadowing another attribute's helpers (collection inherited, scalar new)", "C16/collision/inherited-collection/no-fallback", lambda: f"{sorted(n for n in dir(cls) if n.startswith(('with_', 'without_')))}")
+                r2 = o.with_items_item(7).without_items_item(2)
+                check(r2.items == [7] and r2.item == 1, "the fallback element helpers address the inherited collection", "C16/collision/inherited-collection/fallback-broken")
+                p_ = par(items=[1]).with_item(3)
+                check(p_.items == [1, 3], "the parent class keeps its own element helpers", "C16/collision/inherited-collection/parent-affected", lambda: f"{p_!r}")
+            return "ok"
         if kind == "inherited":
             # the colliding scalar attribute is inherited from a spec parent
             par = spec_class(bootstrap=not lazy)(new_class({"__annotations__": {"item": int}, "item": 1}))
@@ -263,5 +302,5 @@ def obligations(tier):
             obs.append(Ob(f"C16.occupied.{tname}.{kind or 'none'}", make_occupied(tname, kind), warm, f"template {tname}: the class body defines {'one of the ' + str(n) + ' generated names itself as a ' + kind if kind else 'no generated name'}; which name, the init/repr/eq switch combination (5) and lazy/eager are symbolic selectors; identities checked after decoration and after first use of every helper. Selector-only: finite space exhausted through the solver, no numeric quantity.", expect={"ok"}, timeout=T))
     obs.append(Ob("C16.selection", make_selection(), [(s, lz) for s in range(7) for lz in (False, True)], "attrs / attrs_typed / attrs_skip selections (incl. the documented empty attrs_skip idiom) x lazy/eager (selector-only)", expect={"ok"}, timeout=T))
     obs.append(Ob("C16.super", make_super(), [(s_, lz, sp) for s_ in range(9) for lz in (False, True) for sp in (False, True)], "plain or spec subclass defining a method named like one of 9 generated helpers of its spec parent and delegating to super(); called twice; lazy/eager (selector-only)", expect={"ok"}, timeout=T))
-    obs.append(Ob("C16.collision", make_collision(), [(s, lz) for s in range(5) for lz in (False, True)], "attribute-name pairs whose singular/plural forms collide (same class, or scalar inherited from a spec parent), fallback free or taken, x lazy/eager (selector-only)", expect={"ok", "RuntimeError"}, timeout=T))
+    obs.append(Ob("C16.collision", make_collision(), [(s, lz) for s in range(7) for lz in (False, True)], "attribute-name pairs whose singular/plural forms collide (same class; scalar inherited from a spec parent; two collections with one singular form; collection inherited and scalar new), fallback free or taken, x lazy/eager (selector-only)", expect={"ok", "RuntimeError"}, timeout=T))
     return obs
